@@ -114,7 +114,7 @@ impl Ctx {
         let r = self.list_towers();
         if r.is_none() || t0.elapsed() > Duration::from_secs(2) {
             let err = self.client.as_ref().map(|c| c.stderr.lock().unwrap().clone()).unwrap_or_default();
-            let msg: String = err.lines().filter(|l| l.contains("panicked")).last().unwrap_or("").chars().take(200).collect();
+            let msg: String = err.lines().filter(|l| l.contains("panicked")).next().unwrap_or("").chars().take(200).collect();
             self.v("C14", format!("client-wedged:listtowers-unanswered:after-{after}"), format!("no answer to listtowers within 2 s; stderr: {msg}"));
             self.v("C05", format!("client-wedged:listtowers-unanswered:after-{after}"), format!("no answer to listtowers within 2 s; stderr: {msg}"));
             return false;
@@ -241,7 +241,7 @@ pub fn run_scenario(sc: &Scenario, props: &[&'static str]) -> Trace {
                     let held = cx.towers.iter().any(|t| t.state.lock().unwrap().in_flight > 0);
                     if !held {
                         let err = cx.client.as_ref().map(|c| c.stderr.lock().unwrap().clone()).unwrap_or_default();
-                        let msg: String = err.lines().filter(|l| l.contains("panicked")).last().unwrap_or("").chars().take(200).collect();
+                        let msg: String = err.lines().filter(|l| l.contains("panicked")).next().unwrap_or("").chars().take(200).collect();
                         cx.v("C14", "hook-never-answered".into(), format!("commitment_revocation {i} got no answer within 5 s; stderr: {msg}"));
                         cx.v("C05", "hook-never-answered".into(), format!("commitment_revocation {i} got no answer within 5 s; stderr: {msg}"));
                     }
@@ -617,6 +617,50 @@ fn c05_scenarios(tier: Tier) -> Vec<Scenario> {
             steps: vec![Step::Register(0), Step::Register(1), Step::Script(1, add.clone(), vec![k.clone()]), Step::Revoke(1), Step::Down(1), Step::Revoke(2), Step::Up(1), Step::Revoke(3), Step::Settle, Step::Restart, Step::Settle],
         });
     }
+    // the same commitment notified again while the retrier has it in flight (the tower holds the request)
+    for (name, gap) in [("released-at-once", 0u64), ("released-after-the-manager-tick", 1500)] {
+        v.push(Scenario {
+            name: format!("duplicate-notification:while-retry-in-flight:{name}"),
+            towers: 1,
+            opts: RetryOpts::default(),
+            steps: vec![
+                Step::Register(0),
+                Step::Down(0),
+                Step::Revoke(1),
+                Step::Script(0, add.clone(), vec![Reply::Hold]),
+                Step::Up(0),
+                Step::Sleep(2500),
+                Step::Revoke(1),
+                Step::Sleep(gap),
+                Step::Release(0),
+                Step::Settle,
+                Step::Revoke(2),
+                Step::Settle,
+                Step::Restart,
+                Step::Settle,
+            ],
+        });
+    }
+    v.push(Scenario {
+        name: "duplicate-notification:while-retry-in-flight:shared-with-a-tower-that-is-down".into(),
+        towers: 2,
+        opts: RetryOpts::default(),
+        steps: vec![
+            Step::Register(0),
+            Step::Register(1),
+            Step::Down(0),
+            Step::Down(1),
+            Step::Revoke(1),
+            Step::Script(0, add.clone(), vec![Reply::Hold]),
+            Step::Up(0),
+            Step::Sleep(2500),
+            Step::Revoke(1),
+            Step::Release(0),
+            Step::Settle,
+            Step::Restart,
+            Step::Settle,
+        ],
+    });
     // two towers holding the same commitments as pending / invalid (appointment bodies are shared between
     // towers in the store): what one tower does must not cost the other its record
     v.push(Scenario {
